@@ -4,6 +4,7 @@ use serde_json::Value;
 pub mod c15;
 pub mod c16;
 pub mod c17;
+pub mod c18;
 pub mod c19;
 pub mod c20;
 
@@ -15,6 +16,7 @@ fn table(prop: &str) -> Option<(RunFn, ReplayFn)> {
         "C15" => (c15::run, c15::replay),
         "C16" => (c16::run, c16::replay),
         "C17" => (c17::run, c17::replay),
+        "C18" => (c18::run, c18::replay),
         "C19" => (c19::run, c19::replay),
         "C20" => (c20::run, c20::replay),
         _ => return None,
@@ -81,6 +83,7 @@ pub fn replay(ctx: &Ctx, path: &str) -> i32 {
 
 pub fn child_main(args: &[String]) -> i32 {
     match args.first().map(|s| s.as_str()) {
+        Some("c18") => c18::child(&args[1..]),
         _ => {
             eprintln!("ENGINE-ERROR unknown child {:?}", args);
             2
